@@ -266,20 +266,35 @@ def opassign_operand_programs():
 
 
 def same_name_functions_projects():
-    """several files whose functions have the SAME compiler-given names (`__fn0`, `__module__`, `K::m`) and jumps at the same
-    instruction indexes with different offsets, all run in one process; each function is run on both branch outcomes"""
-    def fn_text(export, a, b, pad):
-        body = "".join("    print \"pad %d\"\n" % i for i in range(pad))
-        return ("%sdescribe%s = fn(n: int) -> str {\n  if n > 10 {\n%s    return \"%s\"\n  } else {\n    print \"small\"\n    return \"%s\"\n  }\n}\n"
-                % ("export " if export else "", ": fn(int) -> str" if export else "", body, a, b))
+    """several files whose functions have the SAME compiler-given names (`__fn0`, `__module__`) and jumps at the same
+    instruction indexes with DIFFERENT offsets (the else-branches differ in length), and at different indexes (the
+    if-branches differ), all run in one process; each function is run on both branch outcomes, in both orders"""
+    def fn_text(export, tag, ip, ep):
+        # no `return` inside the branches: the if-branch ends with the `jmp` over the else-branch, and that jump is executed
+        ib = "".join("    print \"%s if-pad %d\"\n" % (tag, i) for i in range(ip))
+        eb = "".join("    print \"%s else-pad %d\"\n" % (tag, i) for i in range(ep))
+        return ("%sdescribe%s = fn(n: int) -> str {\n  r = \"%s none\"\n  if n > 10 {\n%s    r = \"%s big\"\n  } else {\n%s    r = \"%s small\"\n  }\n  print \"%s after\"\n  return r\n}\n"
+                % ("export " if export else "", ": fn(int) -> str" if export else "", tag, ib, tag, eb, tag, tag))
+
+    def lines(tag, ip, ep, n):
+        if n > 10:
+            return ["%s if-pad %d" % (tag, i) for i in range(ip)] + ["%s after" % tag, "%s big" % tag]
+        return ["%s else-pad %d" % (tag, i) for i in range(ep)] + ["%s after" % tag, "%s small" % tag]
     out = []
-    for pads in ((0, 3), (3, 0), (1, 1), (2, 5)):
-        lib = "print \"lib init\"\n" + fn_text(True, "lib big", "lib small", pads[1]) + "k = 0\nwhile k < 2 {\n  k = k + 1\n  if k == 1 {\n    continue\n  }\n  print \"lib loop \" + k\n}\n"
-        main = ("import lib\n" + fn_text(False, "main big", "main small", pads[0]) + "print describe(50)\nprint lib.describe(50)\nprint describe(5)\nprint lib.describe(5)\n"
-                "j = 0\nwhile j < 3 {\n  j = j + 1\n  if j == 2 {\n    continue\n  }\n  print \"main loop \" + j\n}\nprint lib.describe(11)\nprint describe(11)\n")
-        exp = (["lib init", "lib loop 2"] + ["pad %d" % i for i in range(pads[0])] + ["main big"] + ["pad %d" % i for i in range(pads[1])] + ["lib big", "small", "main small", "small", "lib small",
-               "main loop 1", "main loop 3"] + ["pad %d" % i for i in range(pads[1])] + ["lib big"] + ["pad %d" % i for i in range(pads[0])] + ["main big"])
-        out.append({"name": "same-named functions in two files, pads %d/%d" % pads, "files": {"main.ms": main, "lib.ms": lib}, "entry": "main.ms", "kind": "catalogue", "expect": exp})
+    for (mi, me, li, le) in ((0, 0, 0, 2), (0, 2, 0, 0), (1, 0, 1, 3), (2, 1, 0, 1), (0, 1, 0, 4)):
+        for order in ("main-first", "lib-first"):
+            lib = "print \"lib init\"\n" + fn_text(True, "lib", li, le) + "k = 0\nwhile k < 2 {\n  k = k + 1\n  if k == 1 {\n    continue\n  }\n  print \"lib loop \" + k\n}\n"
+            calls = [("main", 50), ("lib", 50), ("main", 5), ("lib", 5), ("lib", 11), ("main", 11), ("lib", 3)]
+            if order == "lib-first":
+                calls = [("lib", 5), ("main", 5), ("lib", 50), ("main", 50), ("main", 3), ("lib", 11)]
+            main = "import lib\n" + fn_text(False, "main", mi, me) + "".join("print %sdescribe(%d)\n" % ("lib." if w == "lib" else "", n) for w, n in calls)
+            main += "j = 0\nwhile j < 3 {\n  j = j + 1\n  if j == 2 {\n    continue\n  }\n  print \"main loop \" + j\n}\n"
+            exp = ["lib init", "lib loop 2"]
+            for w, n in calls:
+                exp += lines(w, mi if w == "main" else li, me if w == "main" else le, n)
+            exp += ["main loop 1", "main loop 3"]
+            out.append({"name": "same-named functions in two files, branch lengths %d/%d vs %d/%d, %s" % (mi, me, li, le, order), "files": {"main.ms": main, "lib.ms": lib},
+                        "entry": "main.ms", "kind": "catalogue", "expect": exp})
     return out
 
 
